@@ -34,8 +34,8 @@ Print Assumptions C09_registry_lossless.
 (* _partial: FULL statement = the same over every reachable entity class and every stanza of
    its documented shape; proved for the registry (all reachable classes but ChallengeProtocolEntity
    and CryptoIqProtocolEntity, which raise on every input under Python 3) on the documented
-   domain minus the open findings (message t="0", retry="0", absent offline; error backoff="0";
-   group-removal mode), and for the payload under the hypothesis pl_lossless PL. *)
+   domain minus the two open findings (error backoff="0"; group-removal mode), and for the
+   payload under the hypothesis pl_lossless PL. *)
 Theorem C09_all_classes_partial : forall PL, pl_lossless PL ->
   forall e n, In e registry -> matches PL (e_schema e) [] n = true ->
   exists v n', get PL (e_schema e) n = Some v /\ put PL (e_schema e) [] v = Some n' /\ neqv PL n' n.
@@ -86,14 +86,6 @@ Theorem C09_RemoveGroupsNotification_mode_refuted :
 Proof. exact RemoveGroupsNotification_mode_refuted. Qed.
 Print Assumptions C09_RemoveGroupsNotification_mode_refuted.
 
-Theorem C09_Message_offline_refuted : refutes (msg_in_offline_wide ty_any KNil) wit_Message_offline.
-Proof. exact Message_offline_refuted. Qed.
-Print Assumptions C09_Message_offline_refuted.
-
-Theorem C09_Message_retry0_refuted : refutes (msg_in_retry_wide ty_any KNil) wit_Message_retry0.
-Proof. exact Message_retry0_refuted. Qed.
-Print Assumptions C09_Message_retry0_refuted.
-
 (* Repaired defects (fixes/C09-*.patch): witnesses against the pre-fix behaviour. *)
 Theorem C09_prefix_variants_refuted :
   refutes schema_Notification_prefix wit_Notification /\
@@ -104,3 +96,13 @@ Theorem C09_prefix_variants_refuted :
   refutes (schema_ResultSyncIq last_prefix) wit_ResultSync.
 Proof. exact prefix_variants_refuted_thm. Qed.
 Print Assumptions C09_prefix_variants_refuted.
+
+(* fixes/C09-message-offline-optional / -retry-zero / -timestamp-zero: the pre-fix message header
+   materialised offline="0", dropped retry="0" and replaced t="0" by the clock (witness with the
+   clock reading 1700000000). *)
+Theorem C09_message_prefix_variants_refuted :
+  refutes (msg_in_prefix_offline ty_any KNil) wit_Message_offline /\
+  refutes (msg_in_prefix_retry ty_any KNil) wit_Message_retry0 /\
+  refutes (msg_in_prefix_t 1700000000 ty_any KNil) wit_Message_t0.
+Proof. exact message_prefix_variants_refuted_thm. Qed.
+Print Assumptions C09_message_prefix_variants_refuted.
